@@ -1,5 +1,5 @@
 From Base Require Import CInt.
-From C02 Require Import Gen Model Tactics ProofsHelpers ProofsHelpersCmp ProofsDiv.
+From C02 Require Import Gen Model Tactics ProofsHelpers ProofsHelpersAsr ProofsHelpersCmp ProofsHelpersEq ProofsDiv.
 Local Open Scope Z_scope.
 
 (* ---------------------------------------------------------------- wrap_value *)
